@@ -42,6 +42,40 @@ class Machine:
             emg3d.solve_source(model, src, 1.0, verb=0, maxit=2, **kw)
         sf = emg3d.get_source_field(grid, src, -1.0)
         emg3d.solve(model, sf, verb=0, maxit=2, linerelaxation=True)
+        # the remaining jitted paths (volume averaging between grids,
+        # edges-to-volume averaging, all coarsening patterns, triaxial
+        # models), complex and real, so that the forked runs find every
+        # kernel compiled
+        grid2 = emg3d.TensorMesh([np.ones(6) * 100, np.ones(4) * 150,
+                                  np.ones(8) * 75], origin=(0, 0, 0))
+        model3 = emg3d.Model(grid2, 1.0, 2.0, 3.0, mapping='LgResistivity')
+        for f in (1.0, -1.0):
+            sf = emg3d.get_source_field(grid2, emg3d.TxElectricDipole(
+                (250, 350, 250, 350, 250, 350)), f)
+            for sc, lr in ((1, 1), (2, 2), (3, 3), (0, 4), (0, 5), (0, 6),
+                           (0, 7), (True, True)):
+                emg3d.solve(model3, sf, verb=0, maxit=1, sslsolver=False,
+                            semicoarsening=sc, linerelaxation=lr)
+        try:
+            survey = emg3d.Survey(
+                emg3d.TxElectricDipole((250, 350, 250, 350, 250, 350)),
+                [emg3d.RxElectricPoint((150, 250, 350, 0, 0)),
+                 emg3d.RxMagneticPoint((350, 250, 250, 30, 10))], [1.0],
+                data=np.ones((1, 2, 1)) * (1 + 1j) * 1e-12,
+                noise_floor=1e-15)
+            sim = emg3d.Simulation(
+                survey, emg3d.Model(grid2, 1.0), gridding='input',
+                gridding_opts=emg3d.TensorMesh(
+                    [np.ones(4) * 150, np.ones(4) * 150, np.ones(4) * 150],
+                    origin=(0, 0, 0)), max_workers=1, tqdm_opts=False,
+                receiver_interpolation='linear',
+                solver_opts={'maxit': 1, 'plain': True, 'verb': -1})
+            sim.compute()
+            _ = sim.gradient
+            sim.jvec(np.ones(sim.model.shape))
+            sim.get_hfield('TxED-1', 'f-1')
+        except Exception:      # noqa - the warm-up must never fail a check
+            pass
 
 
 @contextlib.contextmanager
